@@ -80,6 +80,11 @@ def _menu(sp, k, tag):
         d = build("fig55", [0.5, 0.75]).description(sp, prefix=tag + "r", nsym=0)
         d["transition_list"][3] = {9: [(0.5, 6, 0), (0.5, 7)], 10: [("0.5", 6), (0.5, 7)], 11: [(0.5,), (0.5, 7)]}[k]
         return d, "bad"
+    if k in (16, 17):   # a game that spells out the documented prune_states argument itself
+        d = build("dead", [PR, ["A", "D"]]).description(sp, prefix=tag + "r", nsym=1) if k == 16 else \
+            build("nosol", ["forced"]).description(sp, prefix=tag + "r", nsym=0)
+        d["prune_states"] = (k == 17)
+        return d, ("ok" if k == 16 else "nosol")
     if k == 12:     # the per-state container is a tuple of pairs instead of a list
         d = build("fig55", [0.5, 0.75]).description(sp, prefix=tag + "r", nsym=0)
         d["transition_list"][4] = tuple(d["transition_list"][4])
@@ -113,7 +118,7 @@ def _batch_jobs(tier, seed):
         jobs.append(dict(picks=list(t), _cost=4))
     jobs.append(dict(picks=[0], _cost=1))
     jobs.append(dict(picks=[4], _cost=1))
-    for extra in ([6], [6, 0], [0, 6, 1], [7, 8], [8, 7], [7, 3, 8], [9], [0, 9, 1], [10, 0], [1, 11], [12], [0, 12], [13], [13, 0], [14, 15], [15, 14], [14, 3, 15]):
+    for extra in ([6], [6, 0], [0, 6, 1], [7, 8], [8, 7], [7, 3, 8], [9], [0, 9, 1], [10, 0], [1, 11], [12], [0, 12], [13], [13, 0], [14, 15], [15, 14], [14, 3, 15], [16], [17], [16, 17, 0]):
         jobs.append(dict(picks=extra, _cost=2))
     return jobs
 
@@ -137,7 +142,7 @@ def _alone(sp, desc, prune):
 @harness("batch.run_games", props=["C12", "C09"], jobs=_batch_jobs,
          covers=["fail_first", "fail_middle", "fail_last", "all_ok", "nosol", "malformed"],
          stubs=["logging (tad) -> sweep counter", "time.time native (total_time not compared)"],
-         bounds="dictionaries of 1-3 games drawn from a menu of 16 (solvable templates with symbolic rewards, a no-solution "
+         bounds="dictionaries of 1-3 games drawn from a menu of 18 (solvable templates with symbolic rewards, a no-solution "
                 "game, two malformed games with a symbolic bad value) in every order (quick: all pairs with a failing game, 15 triples)",
          desc="real run_games: one pruned and one unpruned entry per game, in run order, whose strategies, rewards, probabilities, "
               "diagnostics and counts equal those of the game solved alone; a failing pruned solve yields the error message, its "
@@ -151,6 +156,8 @@ def batch_run(sp, picks):
         games[NAMES[pos]] = d
         kinds[NAMES[pos]] = kind
     snap = copy.deepcopy(games)
+    for n in snap:
+        snap[n].pop("prune_states", None)
     ks = [kinds[n] for n in games]
     if all(k == "ok" for k in ks):
         sp.cover("all_ok")
@@ -173,6 +180,14 @@ def batch_run(sp, picks):
     for n in games:
         exp_keys += [n, n + "_no_prune"]
     sp.prove(list(out.keys()) == exp_keys, "result entries %s, expected %s" % (list(out.keys()), exp_keys))
+    if len(picks) <= 2:
+        # running the same dictionary again gives the same entries (whatever the first run left in the caller's dictionaries)
+        t.logging.reset(400 * 2 * len(picks))
+        again = cr.run_games(games)
+        sp.prove(list(again.keys()) == exp_keys, "second run on the same dictionary gives entries %s" % list(again.keys()))
+        for key in exp_keys:
+            sp.prove(again[key]["msg"] == out[key]["msg"] and again[key]["final_strategies"] == out[key]["final_strategies"]
+                     and again[key]["probabilities"] == out[key]["probabilities"], "second run on the same dictionary differs at %s" % key)
     for n, d in games.items():
         alone_p = _alone(sp, snap[n], True)
         alone_u = _alone(sp, snap[n], False)
